@@ -68,7 +68,8 @@ Evict(i) == /\ \E j \in DOMAIN hasher : hasher[j] = i
             /\ hasher' = SelectSeq(hasher, LAMBDA x : x # i) /\ dead' = dead \cup {i}
             /\ conns' = conns \ {i}
             /\ hist' = Append(hist, <<"evict", i>>)
-            /\ UNCHANGED <<clients, mon, bad>>
+            /\ Feed(<<[e |-> "fault", node |-> Name(i)]>>)
+            /\ UNCHANGED clients
 (* the dead-server check brings a dead node back (add_server) *)
 Revive(i) == /\ i \in dead
              /\ hasher' = AppendNew(hasher, <<i>>) /\ dead' = dead \ {i} /\ clients' = clients \cup {i}
@@ -82,5 +83,8 @@ Next == /\ steps < MaxSteps /\ steps' = steps + 1
         /\ IF Export /\ steps' = MaxSteps THEN PrintT(ToJson([tag |-> "EXP", hist |-> hist'])) ELSE TRUE
 Spec == Init /\ [][Next]_vars
 MonitorOK == bad = {}
+(* with nothing left in the rotation a key-addressed call raises ("all servers seem to be down"): the contract allows *)
+(* that only when every current node was made to fail since the last reconfiguration                                *)
+EmptyRotationOnlyByFaults == (mon.valid /\ hasher = <<>>) => mon.cur \subseteq mon.faulted
 (* a revived node that is no longer advertised must not come back into rotation *)
 =============================================================================
